@@ -61,6 +61,30 @@ Theorem C10_roundtrip_full : forall d s, single_signed d = true -> dur_str d = T
 Proof. exact roundtrip_full. Qed.
 Print Assumptions C10_roundtrip_full.
 
+(* an explicit part of the printable domain: integer components.  Together
+   with C10_roundtrip_full this is the integer case in closed form; finite
+   decimals are covered by C10_roundtrip/C10_fixpoint through `printable`. *)
+Theorem C10_printable_int : forall y mo d h mi s,
+  Z.abs y < 10 ^ 4300 -> Z.abs mo < 10 ^ 4300 -> Z.abs d < 10 ^ 4300 ->
+  Z.abs h < 10 ^ 15 -> Z.abs mi < 10 ^ 15 -> Z.abs s < 10 ^ 15 ->
+  printable (DU y mo d (inject_Z h) (inject_Z mi) (inject_Z s)) = true.
+Proof. exact printable_int_units. Qed.
+Print Assumptions C10_printable_int.
+
+Theorem C10_roundtrip_int : forall y mo d h mi s,
+  let x := DU y mo d (inject_Z h) (inject_Z mi) (inject_Z s) in
+  Z.abs y < 10 ^ 4300 -> Z.abs mo < 10 ^ 4300 -> Z.abs d < 10 ^ 4300 ->
+  Z.abs h < 10 ^ 15 -> Z.abs mi < 10 ^ 15 -> Z.abs s < 10 ^ 15 ->
+  single_signed x = true ->
+  exists t x', dur_str x = TOk t /\ dur_parse t = TOk x' /\ dur_eqb x' x = true /\ dur_str x' = TOk t.
+Proof. exact roundtrip_int_units. Qed.
+Print Assumptions C10_roundtrip_int.
+
+Theorem C10_roundtrip_weeks : forall w, Z.abs w < 10 ^ 4300 ->
+  exists t x', dur_str (DW w) = TOk t /\ dur_parse t = TOk x' /\ dur_eqb x' (DW w) = true /\ dur_str x' = TOk t.
+Proof. exact roundtrip_weeks. Qed.
+Print Assumptions C10_roundtrip_weeks.
+
 (* designator faithfulness: each designator maps to its unit (M before T is
    months, after T minutes), the sign factor multiplies every component, comma
    and point decimals denote the same value, absent groups are zero *)
